@@ -192,10 +192,8 @@ Outcome(s) ==
 ----------------------------------------------------------------------------
 (* The machine.                                                             *)
 
-Init == /\ cs \in Universe(Tier)
-        /\ st = S0
-        /\ todo = 1..Len(cs.opts)
-        /\ ph = "apply"
+InitState == st = S0 /\ todo = 1..Len(cs.opts) /\ ph = "apply"
+Init == cs \in Universe(Tier) /\ InitState
 
 Apply(i) == /\ ph = "apply" /\ ~st.err /\ i \in todo
             /\ st' \in AApply(st, cs.opts[i])
